@@ -290,9 +290,15 @@ void suite_cksum(int tier) {
             stat_add("cksum.payload_corruptions", 1);
         }
         /* stored checksum edited and re-sealed */
-        for (int r = 0; r < 4; r++) {
+        for (int r = 0; r < 10; r++) {
             memcpy(mut, all[fi], flen);
-            mut[21 + rnd(4)] ^= (unsigned char)(1 + rnd(255));
+            if (r < 4) mut[21 + rnd(4)] ^= (unsigned char)(1 + rnd(255));
+            else {
+                /* special stored values (0 is a legitimate CRC value, not "unset"), with the payload intact or damaged */
+                uint32_t sv[] = { 0, 0, 0xffffffffu, 0xffffffffu, 1, __builtin_bswap32(rd32(mut + 21)) };
+                wr32(mut + 21, sv[r - 4]);
+                if (r & 1) { uint64_t bit = rnd64() % (nbits ? nbits : 1); if (nbits) mut[HDR + bit / 8] ^= (unsigned char)(1u << (bit % 8)); }
+            }
             reseal(mut);
             op_meta(mut, flen, 0); op_fraginv(c, mut, flen, 0);
             stat_add("cksum.stored_edits", 1);
@@ -333,10 +339,13 @@ void suite_endian(int tier) {
     int stripes = tier ? 60 : 10;
     for (int t = 0; t < stripes; t++) {
         cfg_t c = cfg_random_ec();
-        c.ct = 1 + (t % 3);
+        /* checksum type x writer's CRC flavour, cycled so that every combination occurs at every seed */
+        static const int CT[] = { 2, 2, 1, 3, 2, 2 }; static const int LG[] = { 0, 1, 0, 0, 1, 0 };
+        c.ct = CT[t % 6];
         if (c.k + c.m > 10 && c.be != 3) { c.k = 1 + rnd(5); c.m = 1 + rnd(3); c.hd = c.m; }
         stripe_t s;
-        if (stripe_make(&s, c, 1 + rnd(200), 0, rnd(4) == 0) != 0) continue;
+        if (stripe_make(&s, c, 1 + rnd(200), 0, LG[t % 6]) != 0) continue;
+        stat_add(LG[t % 6] ? "endian.legacy_writer" : "endian.zlib_writer", 1);
         unsigned char *nat = malloc(s.flen), *twin = malloc(s.flen);
         for (int i = 0; i < s.n; i++) {
             if (!tier && s.n > 6 && rnd(3) != 0) continue;
